@@ -149,7 +149,11 @@ def isPythonSpecific (e : PStr) : Bool := pythonSpecificEncodings.contains e
 /-- `CharsetMetaAttributeValue.substitute_encoding` (element.py:207-214) -/
 def substituteCharset (e : PStr) : PStr := if isPythonSpecific e then [] else e
 
-def isReSpace (c : Nat) : Bool := reWhitespace.contains c
+/-- `\s` inside the live `CHARSET_RE` -/
+def isReSpace (c : Nat) : Bool := charsetReSpace.contains c
+
+/-- `str.isspace()` = what `str.strip()` removes -/
+def isPySpace (c : Nat) : Bool := reWhitespace.contains c
 
 /-- a sequence of one-character classes at the head of `s`; the rest after it -/
 def matchClasses : List (List Nat) → PStr → Option PStr
@@ -361,7 +365,7 @@ def decodeKids (ev : Option PStr) (parent : PStr) : List Node → PStr
   | k :: ks => decodeNode ev parent k ++ decodeKids ev parent ks
 end
 
-def pyStrip (s : PStr) : PStr := ((s.dropWhile isReSpace).reverse.dropWhile isReSpace).reverse
+def pyStrip (s : PStr) : PStr := ((s.dropWhile isPySpace).reverse.dropWhile isPySpace).reverse
 
 def indentOf (level : Nat) : PStr := (List.replicate level formatterIndent).flatten
 
